@@ -50,9 +50,44 @@ META = {
                  'propagate; reset-dep record predicate) + differential correspondence through the real command line '
                  'entry point + monitor of the property statement on DB dumps and reporter streams',
     'design_ref': '§5 C13, §4 M2/M8',
-    'level_text': '',
-    'level_note': '',
-    'rule': '',
+    'level_text': 'Machine-checked (Lean 4, no sorry, axioms propext/Classical.choice/Quot.sound) over the executable model '
+                  'Model/Cmds.lean, for every task graph, DB state, file system, argument form and default_tasks setting: '
+                  'C13_forget -- after `forget` exactly the records of the documented selection (named + sub-tasks; '
+                  'task_dep/setup closure under --follow-sub, proved equal to graph reachability; everything under '
+                  '--all; default tasks, else all) are empty and every other record, the files and the definitions are '
+                  'untouched; an unknown name rejects the command with nothing done; C13_forgotten_not_skipped -- a '
+                  'forgotten task with a file dependency is not reported up-to-date in the next run, for every order of '
+                  'hand-over; C13_ignore_cmd / C13_ignore_run / C13_ignore_persists / C13_ignore -- exactly the named '
+                  'tasks and their sub-tasks are marked, the mark survives every history of edits, runs, ignores and '
+                  'forgets of other tasks, and in every later run every processed task that is marked or reaches a marked '
+                  'task over task_dep edges (declared or implicit) is reported ignored while tasks with such a setup-task '
+                  'are not executed; C13_resetdep -- target list, no other record changed, nothing recorded with a '
+                  'missing file_dep, otherwise every dependency recorded as the present file, values and result kept and '
+                  'status = up-to-date unless an early exit of get_status fires; counterexample theorems for the two '
+                  'pinned defects.  The model is tied to doit on every run by driving the real command line entry point '
+                  'in-process on real files (3 backends x 2 checkers): printed target lists, exit codes, per-task '
+                  'reports, reset-dep lines and the logical DB after every op are diffed against the model; the monitor '
+                  'evaluates the property statement on DB dumps and reporter streams against specification sets '
+                  'computed by the Lean driver from the documented semantics (never from a DB).',
+    'level_note': 'C13_forget carries the decidable hypothesis `forgetTarget != .fuel` (the closure iteration of the model '
+                  'has an explicit out-of-fuel result; evaluated on every generated case, never seen).  C13_ignore_run '
+                  'assumes a duplicate-free hand-over order in which no task is processed before a dependency it needs '
+                  'has a report (`bad = false`; C01 is the theorem about the dispatcher, the driver evaluates the flag on '
+                  'every observed run).  C13_ignore_persists excludes reset-dep and checker changes from the histories: '
+                  'the code drops the mark there (open finding resetdep-checker-change-drops-ignore, '
+                  'findings/pending/C13-resetdep-checker-change-drops-ignore.md); the monitor keeps the full statement.  '
+                  '"Executes on the next run" is read for tasks whose decision consults saved state (file_dep), DESIGN '
+                  '§5.  The monitor is a Python predicate (set/equality tests on dumps and reports) over specification '
+                  'sets and the reset-dep record predicate evaluated by the Lean driver.',
+    'rule': 'task sets of 2-5 creators (45% with a group of 1-2 sub-tasks), 1-2 source files, edges to earlier tasks: '
+            'task_dep p=.3, setup p=.25, target->file_dep p=.3; 40% with default_tasks; a set-up prefix (write sources, '
+            'full run) then 3-8 ops: runs (selection, -a, -c, failing actions), forget in 12 argument forms (names, -s, '
+            '--all, --disable-default, none, unknown names), ignore, reset-dep (named / all), edits / touches / '
+            'deletions of sources and targets, each command mostly followed by a run; 10% of md5 cases change the '
+            'checker once; 12% mutations of corpus seeds; exhaustive tier: every command word of length <= 1 (quick; '
+            'length 2 sampled) / <= 2 (thorough; length 3 sampled) over a 13-letter alphabet on 4 fixed task sets; '
+            'non-trivial = a command changed the DB and a later run both skipped/ignored and executed; distinct = '
+            'distinct rendered case',
     'assumptions': ['a file\'s content never changes while its mtime stays the same (MD5Checker\'s premise); mtimes are '
                     'set by the harness from an integer clock',
                     'md5 is treated as an injective content id',
@@ -63,6 +98,31 @@ META = {
                 'backends are exercised, not modelled here (C07)'],
     'models': ['M2', 'M8'],
 }
+
+def sig_resetdep_checker_change(w):
+    """an ignore mark is gone although the task was never forgotten, and between the `ignore` and the failing run
+    there is a `reset-dep` acting on a marked task issued after the configured checker changed"""
+    f = w.get('failed') or {}
+    if f.get('clause') not in ('ignore-skips', 'ignore-skips-setup'):
+        return False
+    case = w['case']
+    ops = case['ops']
+    marks = set(f.get('marks') or [])
+    k = f.get('op', len(ops))
+    tasks = case['tasks']
+    changed = False
+    for op in ops[:k]:
+        if op[0] == 'checker' and op[1] != case['checker']:
+            changed = True
+        elif op[0] == 'reset' and changed:
+            sel = set(op[1])
+            target = set(range(len(tasks))) if not op[1] else sel | set(j for j, t in enumerate(tasks) if t.get('sub_of') in sel)
+            if target & marks:
+                return True
+    return False
+
+
+SIGNATURES = {'resetdep-checker-change-drops-ignore': sig_resetdep_checker_change}
 
 EMPTY = {'values': None, 'result': None, 'checker': None, 'deps': None, 'fstate': [], 'ign': False}
 EXECUTED = ('ok', 'fail', 'save-missing')
@@ -291,6 +351,8 @@ def run_history(case):
             w.touch(op[1], w.tick())
         elif kind == 'delete':
             w.delete(op[1])
+        elif kind == 'checker':
+            w.checker = op[1]
         elif kind == 'run':
             spec = op[1]
             w.plan = spec.get('plan') or {}
@@ -372,6 +434,9 @@ def to_requests(case, obs):
         elif kind in ('touch', 'delete'):
             ops_m.append([kind, op[1]])
             ops_p.append([kind, op[1]])
+        elif kind == 'checker':
+            ops_m.append(['checker', statuslib.CK_MODEL[op[1]]])
+            ops_p.append(['checker', statuslib.CK_MODEL[op[1]]])
         elif kind == 'run':
             m = ['run', {'order': [t for t, _ in o['steps'] if t >= 0], 'always': bool(op[1].get('always')),
                          'plan': model_plan(op[1].get('plan'), case)}]
@@ -518,14 +583,14 @@ def monitor(case, obs, steps, r):
     pending_forgot = set()      # forgotten, consults saved state, not yet seen in a run
     pending_reset = {}          # t -> True: reset with all deps present and no early exit, nothing happened since
 
-    def viol(i, clause, detail):
-        r['viol'].append({'op': i, 'clause': clause, 'detail': detail})
+    def viol(i, clause, detail, **kw):
+        r['viol'].append(dict({'op': i, 'clause': clause, 'detail': detail}, **kw))
 
     for i, (op, o, sp) in enumerate(zip(case['ops'], obs, steps)):
         kind = op[0]
         pre, post = o['pre'], o['db']
         dumps_ok = isinstance(pre, list) and isinstance(post, list) and pre[:1] != ['exc'] and post[:1] != ['exc']
-        if kind in ('edit', 'touch', 'delete'):
+        if kind in ('edit', 'touch', 'delete', 'checker'):
             pending_reset = {}
             continue
         if not dumps_ok:
@@ -609,11 +674,13 @@ def monitor(case, obs, steps, r):
                     if out != 'ignored':
                         viol(i, 'ignore-skips', '%s is ignored (marks %s, not forgotten since) or depends on an ignored '
                                                 'task (%s reported ignored in this run), but the run reported %s'
-                             % (names[t], [names[x] for x in sorted(marks)], [names[x] for x in hd], out))
+                             % (names[t], [names[x] for x in sorted(marks)], [names[x] for x in hd], out),
+                             task=t, marks=sorted(marks))
                 elif t in soft or sd:
                     _cnt(r, 'mon:run-setup-of-ignored')
                     if out in EXECUTED:
-                        viol(i, 'ignore-skips-setup', '%s has an ignored setup-task but was executed (%s)' % (names[t], out))
+                        viol(i, 'ignore-skips-setup', '%s has an ignored setup-task but was executed (%s)' % (names[t], out),
+                             task=t, marks=sorted(marks))
                 elif out == 'ignored':
                     viol(i, 'ignore-others', '%s was reported ignored but neither it nor a dependency is ignored'
                          % names[t])
@@ -664,6 +731,8 @@ def render(case):
             out.append('write f%d := %r' % (op[1], content_of(op[2])))
         elif k in ('touch', 'delete'):
             out.append('%s f%d' % (k, op[1]))
+        elif k == 'checker':
+            out.append('from now on --check_file_uptodate=%s' % op[1])
         elif k == 'run':
             s = op[1]
             flags = (' -a' if s.get('always') else '') + (' -c' if s.get('cont') else '')
@@ -761,6 +830,8 @@ def drop_task(case, k):
             a = dict(op[1])
             a['names'] = [x if x >= n else tmap(x) for x in a['names'] if x != k]
             ops.append(['forget', a])
+        elif kind == 'checker':
+            ops.append(list(op))
         else:
             ops.append([kind, [x if x >= n else tmap(x) for x in op[1] if x != k]])
     c = dict(case, tasks=new, ops=ops)
@@ -1008,6 +1079,11 @@ def gen_case(rng):
                 ops.append(['touch', p])
             else:
                 ops.append(['delete', p])
+    if case['checker'] == 'md5' and rng.random() < 0.10:
+        # the configured checker changes once (md5 -> timestamp: the direction in which no checker meets a state it
+        # cannot read, findings/pending/C03-md5-on-timestamp-state.md)
+        first_run = next((k for k, o in enumerate(ops) if o[0] == 'run'), len(ops) - 1)
+        ops.insert(rng.randint(first_run + 1, len(ops)), ['checker', 'timestamp'])
     return case
 
 
